@@ -399,3 +399,14 @@ func Test34CacheNoEmptyExt(t *testing.T) {
 		t.Errorf("second lookup not served from cache: same=%v loader calls %d -> %d", t1 == t2, n, len(l.paths))
 	}
 }
+
+func Test35ContentErrorUnwind(t *testing.T) {
+	src := "{{block cb()}}{{x := 1}}{{if true}}{{y := 2}}{{yield content}}{{end}}{{content}}{{end}}|{{yield cb() content}}\n{{ nosuch }}{{end}}"
+	wantErr(t, one(src, nil, nil), `"/t.jet":2`)
+	// and inside try the real error must reach catch, with the state after the try intact
+	src2 := "{{block cb()}}{{x := 1}}{{if true}}{{y := 2}}{{yield content}}{{end}}{{content}}{{end}}|{{z := 5}}{{try}}{{yield cb() content}}{{ nosuch }}{{end}}{{catch e}}[{{e}}]{{end}}{{z}}"
+	r := one(src2, nil, nil)
+	if r.pan != nil || r.err != nil || !strings.Contains(r.out, "nosuch") || !strings.HasSuffix(r.out, "]5") {
+		t.Errorf("%s", r)
+	}
+}
